@@ -1,1 +1,182 @@
-//! corpus of the repository's own BASIC programs
+//! Corpus of the repository's own BASIC program texts: string literals embedded
+//! in the test sources plus the fixtures. Inputs only — their test expectations
+//! are never used as oracles.
+
+use std::collections::BTreeSet;
+use std::path::{Path, PathBuf};
+
+fn repo_root() -> PathBuf {
+    PathBuf::from(std::env::var("VERIF_REPO").unwrap_or_else(|_| "/repo".to_string()))
+}
+
+fn walk(dir: &Path, out: &mut Vec<PathBuf>) {
+    let Ok(rd) = std::fs::read_dir(dir) else { return };
+    let mut entries: Vec<PathBuf> = rd.filter_map(|e| e.ok()).map(|e| e.path()).collect();
+    entries.sort();
+    for p in entries {
+        if p.is_dir() {
+            let name = p.file_name().map(|n| n.to_string_lossy().to_string()).unwrap_or_default();
+            if name == "target" || name == ".git" {
+                continue;
+            }
+            walk(&p, out);
+        } else if p.extension().map(|e| e == "rs").unwrap_or(false) {
+            out.push(p);
+        }
+    }
+}
+
+/// Extracts Rust string literals (raw and ordinary) from a source text.
+fn string_literals(src: &str) -> Vec<String> {
+    let b: Vec<char> = src.chars().collect();
+    let mut out = vec![];
+    let mut i = 0;
+    while i < b.len() {
+        let c = b[i];
+        if c == '/' && i + 1 < b.len() && b[i + 1] == '/' {
+            while i < b.len() && b[i] != '\n' {
+                i += 1;
+            }
+            continue;
+        }
+        if c == 'r' && i + 1 < b.len() && (b[i + 1] == '"' || b[i + 1] == '#') && (i == 0 || !(b[i - 1].is_alphanumeric() || b[i - 1] == '_')) {
+            let mut j = i + 1;
+            let mut hashes = 0;
+            while j < b.len() && b[j] == '#' {
+                hashes += 1;
+                j += 1;
+            }
+            if j < b.len() && b[j] == '"' {
+                j += 1;
+                let start = j;
+                'scan: while j < b.len() {
+                    if b[j] == '"' {
+                        let mut k = 0;
+                        while k < hashes && j + 1 + k < b.len() && b[j + 1 + k] == '#' {
+                            k += 1;
+                        }
+                        if k == hashes {
+                            out.push(b[start..j].iter().collect());
+                            j += 1 + hashes;
+                            break 'scan;
+                        }
+                    }
+                    j += 1;
+                }
+                i = j;
+                continue;
+            }
+        }
+        if c == '\'' {
+            // char literal or lifetime: skip a possible char literal
+            if i + 2 < b.len() && b[i + 1] == '\\' {
+                let mut j = i + 2;
+                while j < b.len() && b[j] != '\'' && j < i + 12 {
+                    j += 1;
+                }
+                i = j + 1;
+                continue;
+            }
+            if i + 2 < b.len() && b[i + 2] == '\'' {
+                i += 3;
+                continue;
+            }
+        }
+        if c == '"' {
+            let mut j = i + 1;
+            let mut s = String::new();
+            while j < b.len() && b[j] != '"' {
+                if b[j] == '\\' && j + 1 < b.len() {
+                    match b[j + 1] {
+                        'n' => s.push('\n'),
+                        'r' => s.push('\r'),
+                        't' => s.push('\t'),
+                        '\\' => s.push('\\'),
+                        '"' => s.push('"'),
+                        '0' => s.push('\0'),
+                        '\n' => {
+                            // line continuation: skip following whitespace
+                            j += 2;
+                            while j < b.len() && b[j].is_whitespace() {
+                                j += 1;
+                            }
+                            continue;
+                        }
+                        other => {
+                            s.push('\\');
+                            s.push(other);
+                        }
+                    }
+                    j += 2;
+                } else {
+                    s.push(b[j]);
+                    j += 1;
+                }
+            }
+            out.push(s);
+            i = j + 1;
+            continue;
+        }
+        i += 1;
+    }
+    out
+}
+
+fn looks_like_basic(s: &str) -> bool {
+    if s.len() < 5 || s.len() > 20_000 {
+        return false;
+    }
+    let up = s.to_uppercase();
+    const KW: [&str; 24] = [
+        "PRINT", "DIM ", "FOR ", "IF ", "SUB ", "FUNCTION ", "INPUT", "WHILE", "SELECT", "GOTO", "GOSUB", "CONST", "DECLARE", "TYPE ", "DATA", "OPEN ", "DO", "DEFINT", "LET ", "ON ERROR", "CALL ", "END", "LOCATE", "CLS",
+    ];
+    let has_kw = KW.iter().any(|k| up.contains(k));
+    let assignment = up.contains(" = ") || up.contains('=');
+    (has_kw || assignment) && !s.contains("{}") && !s.contains("{:") && !up.starts_with("EXPECTED")
+}
+
+/// All candidate program texts, deduplicated, in a deterministic order.
+pub fn candidates() -> Vec<String> {
+    let root = repo_root();
+    let mut files = vec![];
+    for krate in ["rusty_basic", "rusty_linter", "rusty_parser"] {
+        walk(&root.join(krate).join("src"), &mut files);
+    }
+    let mut seen: BTreeSet<String> = BTreeSet::new();
+    let mut out = vec![];
+    for f in files {
+        let Ok(text) = std::fs::read_to_string(&f) else { continue };
+        for lit in string_literals(&text) {
+            if looks_like_basic(&lit) && seen.insert(lit.clone()) {
+                out.push(lit);
+            }
+        }
+    }
+    let fixtures = root.join("fixtures");
+    if let Ok(rd) = std::fs::read_dir(&fixtures) {
+        let mut ps: Vec<PathBuf> = rd.filter_map(|e| e.ok()).map(|e| e.path()).collect();
+        ps.sort();
+        for p in ps {
+            if p.extension().map(|e| e.to_string_lossy().to_uppercase() == "BAS").unwrap_or(false) {
+                if let Ok(bytes) = std::fs::read(&p) {
+                    let text = String::from_utf8_lossy(&bytes).to_string();
+                    if seen.insert(text.clone()) {
+                        out.push(text);
+                    }
+                }
+            }
+        }
+    }
+    out
+}
+
+/// Candidates the current parser + checker accept.
+pub fn accepted() -> Vec<String> {
+    candidates().into_iter().filter(|s| !uses_machine(s) && crate::impl_run::front(s).is_ok()).collect()
+}
+
+/// Texts that touch the real machine (never run these).
+pub fn uses_machine(s: &str) -> bool {
+    let up = s.to_uppercase();
+    up.contains("INKEY$") || up.contains("DEF SEG = 0") || up.contains("DEF SEG=0") || up.contains("SYSTEM") && false
+}
